@@ -276,8 +276,17 @@ impl Model {
             // pure guards leave the state alone; everything else is undefined aftermath
             let pure_guard = match call {
                 Call::Write(_) => matches!(self.mode, Idle | NoFile | AfterRaw),
-                Call::EndExtra | Call::EndLocalStartCentral => !self.in_extra(),
+                Call::EndExtra | Call::EndLocalStartCentral if !self.in_extra() => true,
                 Call::Flush => self.mode == AfterRaw,
+                // the pending extra data is malformed / reserved: ending it - explicitly, or implicitly by starting the next
+                // entry or finishing - is refused by the validation before anything is touched. The entry stays open in
+                // its extra-data phase with what was supplied so far; the caller may go on supplying (every write in that
+                // phase is a valid call).
+                Call::EndExtra | Call::EndLocalStartCentral | Call::StartFile { .. } | Call::StartAligned { .. } | Call::StartExtra { .. } | Call::AddDir { .. } | Call::AddSymlink { .. } | Call::RawCopy { .. } | Call::Finish
+                    if self.in_extra() && self.end_class() == Class::MustErr && class == Class::MustErr =>
+                {
+                    true
+                }
                 _ => false,
             };
             if !pure_guard {
